@@ -156,8 +156,13 @@ class Ctx(object):
                'coverage': cov, 'assumptions': self.assumptions, 'wall_s': round(wall, 1),
                'violations': len(self.violations), 'notes': self.notes,
                'repo_include_hash': build.include_hash()}
-        os.makedirs(EVIDENCE, exist_ok=True)
-        with open(os.path.join(EVIDENCE, self.prop + '.json'), 'w') as f:
+        evdir = EVIDENCE
+        if os.environ.get('AVEL_REPO') and os.path.realpath(os.environ['AVEL_REPO']) != '/repo':
+            # a run against another tree (seeded / benign change in a scratch worktree) must not replace the evidence
+            # of /repo that is committed under /verif/evidence
+            evdir = os.path.join('/var/tmp', 'avel_evidence_other_tree')
+        os.makedirs(evdir, exist_ok=True)
+        with open(os.path.join(evdir, self.prop + '.json'), 'w') as f:
             json.dump(evd, f, indent=1, sort_keys=True)
         self.log('done: %d violation signature(s), %d known finding(s), %.0fs' % (len(self.violations), len(self.kf_hits), wall))
         return 1 if self.violations else 0
